@@ -471,7 +471,9 @@ impl Checker {
                         }
                     }
                 }
-                if has_duplicates(&fields) || has_duplicates(&meths) || fields.iter().any(|f| meths.contains(f)) {
+                // fields and methods are separate name spaces: a field may be named like a method
+                // of the same object (the generator does that on purpose)
+                if has_duplicates(&fields) || has_duplicates(&meths) {
                     return false;
                 }
                 true
